@@ -57,7 +57,7 @@ def choose_ops(rng: random.Random, dv: A.DocView, n: int, *, scoped: bool = True
     if dv.target is None:
         return ops
     tree = A.merge(dv.target.bindings)
-    paths = [(p, nd) for p, nd in all_paths(tree) if not any(s.startswith("${") for s in p)]
+    paths = [(p, nd) for p, nd in all_paths(tree) if not any(s.startswith("\x00dyn:") for s in p)]
     leaves = [p for p, nd in paths if nd.kind == "leaf" and not (nd.tokens and nd.tokens[0][0] == "inherit")]
     explicit_sets = [p for p, nd in paths if nd.kind == "set" and nd.explicit and not nd.via_attrpath]
     attr_sets = [p for p, nd in paths if nd.kind == "set" and nd.via_attrpath and not nd.explicit]
